@@ -11,11 +11,12 @@ na_reasons = {}
 p = os.path.join(ROOT, "meta", "not_applicable.json")
 if os.path.exists(p):
     na_reasons = json.load(open(p))
+claimed = set(open(os.path.join(ROOT, "meta", "claimed.txt")).read().split())
 checks, na = [], []
 for pr in props:
     pid = pr["id"]
     m = metas.get(pid)
-    if not m or m.get("unclaimed"):
+    if not m or pid not in claimed:
         na.append({"property_id": pid, "reason": na_reasons.get(pid, "check not built yet (DESIGN.md section 12 gives the construction order); not claimed until its check exists and is green on the unchanged tree")})
         continue
     checks.append({
